@@ -304,20 +304,26 @@ def build_schema(S, workdir):
     except subprocess.TimeoutExpired:
         b.log = "f8c timed out"
         return b
-    try:
-        objs = [build.compile_obj(os.path.join(b.gendir, "%s_%s.cpp" % (b.prefix, s)), "plain", ["-I" + b.gendir] + GEN_FLAGS)
-                for s in ("types", "traits", "classes")]
-        b.cxx_ok = True
-        b.times["cxx"] = round(time.time() - t0, 1)
-    except build.BuildError as e:
-        b.log = str(e)[-1500:]
+    # a compiler or linker failure is believed only if it repeats (a loaded machine can kill a compiler process)
+    for attempt in (1, 2):
+        try:
+            objs = [build.compile_obj(os.path.join(b.gendir, "%s_%s.cpp" % (b.prefix, s)), "plain", ["-I" + b.gendir] + GEN_FLAGS)
+                    for s in ("types", "traits", "classes")]
+            b.cxx_ok = True
+            b.times["cxx"] = round(time.time() - t0, 1)
+            break
+        except build.BuildError as e:
+            b.log = str(e)[-1500:]
+    if not b.cxx_ok:
         return b
-    try:
-        b.binary = build.link("probe_meta_" + b.sid, objs + base_objects(), "asan")
-        b.link_ok = True
-        b.times["link"] = round(time.time() - t0, 1)
-    except build.BuildError as e:
-        b.log = str(e)[-1500:]
+    for attempt in (1, 2):
+        try:
+            b.binary = build.link("probe_meta_" + b.sid, objs + base_objects(), "asan")
+            b.link_ok = True
+            b.times["link"] = round(time.time() - t0, 1)
+            break
+        except build.BuildError as e:
+            b.log = str(e)[-1500:]
     b.objs = objs
     return b
 
@@ -360,6 +366,8 @@ def message_specs(rng, b, per_type_random, n_deep, max_count, only=None):
 
 def run_meta(b):
     evs, rc, err = core.run_probe(b.binary, "", build.run_env(), timeout=120, args=["meta", b.ns])
+    if rc != 0:                         # re-run once before believing an abort
+        evs, rc, err = core.run_probe(b.binary, "", build.run_env(), timeout=120, args=["meta", b.ns])
     if rc != 0 and not any(e["e"] == "MEnd" for e in evs):
         rep = core.san_report(err, 1500)
         evs = [e for e in evs if e["e"] != "Error"] + [{"e": "MAbort", "rc": rc, "what": rep[:300]}]
